@@ -14,6 +14,14 @@ package main
 //   peek                the access tokens[k] is dominated by a checked call
 //                       ParserPeekNextToken(k') with k' >= k on the same base
 //                       value and no token is consumed in between
+//   madewith            the indexed slice was made in this function with length
+//                       len(Y)+c, and the index is len(Y)+c' with c' < c or is
+//                       bounded by a dominating comparison with len(Y)
+//   sortmethod          the access sits in a Less/Swap method of a type that
+//                       also has Len: package sort supplies indices below Len()
+//   nonempty            stack.elements[stack.tos]: a dominating IsEmpty() test
+//                       excludes the empty stack (tos == len(elements)-1 is
+//                       the who-writes invariant of C01-UFL)
 //   rettype:F:T         the asserted value is result 0 of F, the assertion is
 //                       reached only when result 1 is true, and every return
 //                       of F with result 1 == true returns a T
@@ -82,6 +90,12 @@ func (c *Ctx) anchorHolds(row *TableRow, o *Ob, pos token.Pos) (bool, string) {
 			switch parts[0] {
 			case "lenguard":
 				ok, why = anchorLenGuard(in)
+			case "madewith":
+				ok, why = anchorMadeWith(in)
+			case "sortmethod":
+				ok, why = anchorSortMethod(in)
+			case "nonempty":
+				ok, why = c.anchorNonEmpty(in)
 			case "peek":
 				ok, why = c.anchorPeek(in)
 			case "rettype":
@@ -513,4 +527,178 @@ func (c *Ctx) anchorRetType(in ssa.Instruction, fname, tname string) (bool, stri
 		}
 	}
 	return true, ""
+}
+
+// ---- madewith
+
+// lenLinear: v = len(S) + k.
+func lenLinear(v ssa.Value) (ssa.Value, int64, bool) {
+	base, k := linearOf(v)
+	if call, ok := base.(*ssa.Call); ok {
+		if bi, ok := call.Call.Value.(*ssa.Builtin); ok && bi.Name() == "len" && len(call.Call.Args) == 1 {
+			return call.Call.Args[0], k, true
+		}
+	}
+	return nil, 0, false
+}
+
+// madeSlice: the MakeSlice that produced the slice value v in this function.
+func madeSlice(v ssa.Value, depth int) *ssa.MakeSlice {
+	if depth > 4 {
+		return nil
+	}
+	switch x := v.(type) {
+	case *ssa.MakeSlice:
+		return x
+	case *ssa.UnOp:
+		if x.Op != token.MUL {
+			return nil
+		}
+		// a local or a field of a local object: look at the stores to that address
+		var found *ssa.MakeSlice
+		n := 0
+		addr := x.X
+		visit := func(st *ssa.Store) {
+			n++
+			if m := madeSlice(st.Val, depth+1); m != nil {
+				found = m
+			}
+		}
+		if addr.Referrers() != nil {
+			for _, r := range *addr.Referrers() {
+				if st, ok := r.(*ssa.Store); ok && st.Addr == addr {
+					visit(st)
+				}
+			}
+		}
+		if fa, ok := addr.(*ssa.FieldAddr); ok {
+			eachInstr(x.Parent(), func(b *ssa.BasicBlock, i int, in ssa.Instruction) {
+				if st, ok := in.(*ssa.Store); ok {
+					if fa2, ok := st.Addr.(*ssa.FieldAddr); ok && fa2 != fa && fa2.X == fa.X && fa2.Field == fa.Field {
+						visit(st)
+					}
+				}
+			})
+		}
+		if n == 1 {
+			return found
+		}
+	case *ssa.Phi:
+		var found *ssa.MakeSlice
+		for _, e := range x.Edges {
+			if m := madeSlice(e, depth+1); m != nil {
+				if found != nil && found != m {
+					return nil
+				}
+				found = m
+			}
+		}
+		return found
+	case *ssa.Slice:
+		return nil
+	}
+	return nil
+}
+
+func anchorMadeWith(in ssa.Instruction) (bool, string) {
+	base, idx := baseAndIndex(in)
+	if base == nil || idx == nil {
+		return false, "not an index operation"
+	}
+	mk := madeSlice(base, 0)
+	if mk == nil {
+		return false, "the indexed slice is not made (exactly once) in this function"
+	}
+	src, c1, ok := lenLinear(mk.Len)
+	if !ok {
+		return false, "the slice is not made with a length of the form len(Y)+c"
+	}
+	if s2, c2, ok := lenLinear(idx); ok && sameStorage(s2, src, 0) {
+		if c2 < c1 {
+			return true, ""
+		}
+		return false, "the index len(Y)+c' is not below the made length len(Y)+c"
+	}
+	if c1 < 0 {
+		return false, "the slice is made shorter than the collection that bounds the index"
+	}
+	// bounded by a dominating comparison with len(Y)
+	blk := in.Block()
+	for p := blk.Idom(); p != nil; p = p.Idom() {
+		cond, _, _ := condBranch(p)
+		if cond != nil && mentionsLenOf(cond, src, 0, map[ssa.Value]bool{}) {
+			return true, ""
+		}
+	}
+	return false, "no dominating branch compares the index with the length the slice was made with"
+}
+
+// ---- sortmethod
+
+func anchorSortMethod(in ssa.Instruction) (bool, string) {
+	f := in.Parent()
+	for f.Parent() != nil {
+		f = f.Parent()
+	}
+	recv := f.Signature.Recv()
+	if recv == nil || (f.Name() != "Less" && f.Name() != "Swap") {
+		return false, "not inside a Less/Swap method"
+	}
+	ms := types.NewMethodSet(recv.Type())
+	has := map[string]bool{}
+	for i := 0; i < ms.Len(); i++ {
+		has[ms.At(i).Obj().Name()] = true
+	}
+	if !has["Len"] || !has["Less"] || !has["Swap"] {
+		return false, "the receiver type does not implement sort.Interface"
+	}
+	base, idx := baseAndIndex(in)
+	if base == nil {
+		return false, "not an index operation"
+	}
+	// the index is one of the method's parameters, the base is the receiver
+	for _, p := range f.Params[1:] {
+		if idx == ssa.Value(p) {
+			return true, ""
+		}
+	}
+	return false, "the index is not one of the indices package sort passes in"
+}
+
+// ---- nonempty
+
+func (c *Ctx) anchorNonEmpty(in ssa.Instruction) (bool, string) {
+	isEmpty := c.fn("Stack.IsEmpty")
+	tos := c.field("Stack", "tos")
+	if isEmpty == nil || tos == nil {
+		return false, "Stack.IsEmpty / Stack.tos not found"
+	}
+	_, idx := baseAndIndex(in)
+	if idx == nil {
+		return false, "not an index operation"
+	}
+	if _, ok := loadOfField(idx, tos); !ok {
+		return false, "the index is not the stack's tos"
+	}
+	// a dominating `if stack.IsEmpty()` whose true branch does not reach the access
+	blk := in.Block()
+	for p := blk; p != nil; p = p.Idom() {
+		cond, t, _ := condBranch(p)
+		if cond == nil || p == blk {
+			continue
+		}
+		core, neg := stripNot(cond)
+		call, ok := core.(*ssa.Call)
+		if !ok || call.Call.StaticCallee() != isEmpty {
+			continue
+		}
+		emptySucc := t
+		if neg {
+			emptySucc = p.Succs[1]
+		}
+		if emptySucc != blk && !blockReaches(emptySucc, blk) {
+			return true, ""
+		}
+	}
+	return false, "no dominating IsEmpty() test keeps the empty stack away from this access"
 }
